@@ -39,10 +39,12 @@ type fakeBus struct {
 	last  map[string][]peer.ID
 	polls map[string]int
 	pubs  []string // topics published on, in order
+	rendezvous bool           // Subscribe waits (briefly) for a second Subscribe of the same peer to the same topic
+	inflight   map[string]int // peer|topic -> Subscribe calls that got here
 }
 
 func newFakeBus() *fakeBus {
-	return &fakeBus{subs: map[string][]*fakeSub{}, snaps: map[string][][]peer.ID{}, last: map[string][]peer.ID{}, polls: map[string]int{}}
+	return &fakeBus{subs: map[string][]*fakeSub{}, snaps: map[string][][]peer.ID{}, last: map[string][]peer.ID{}, polls: map[string]int{}, inflight: map[string]int{}}
 }
 
 type fakeMsg struct {
@@ -105,6 +107,24 @@ func (f *fakePubSubAPI) Publish(ctx context.Context, topic string, data []byte) 
 }
 func (f *fakePubSubAPI) Subscribe(ctx context.Context, topic string, opts ...options.PubSubSubscribeOption) (coreiface.PubSubSubscription, error) {
 	s := &fakeSub{ch: make(chan *fakeMsg, 1024), closed: make(chan struct{})}
+	if f.bus.rendezvous {
+		// two callers that both got as far as subscribing to one topic meet here (for a while): whatever
+		// is supposed to keep the second one out has to act before this point
+		key := string(f.id) + "|" + topic
+		f.bus.mu.Lock()
+		f.bus.inflight[key]++
+		f.bus.mu.Unlock()
+		deadline := time.Now().Add(30 * time.Millisecond)
+		for time.Now().Before(deadline) {
+			f.bus.mu.Lock()
+			n := f.bus.inflight[key]
+			f.bus.mu.Unlock()
+			if n >= 2 {
+				break
+			}
+			time.Sleep(100 * time.Microsecond)
+		}
+	}
 	f.bus.mu.Lock()
 	f.bus.subs[topic] = append(f.bus.subs[topic], s)
 	f.bus.mu.Unlock()
@@ -339,6 +359,15 @@ func (w *World) tOne(toks []string) {
 	var wg sync.WaitGroup
 	wg.Add(2)
 	var errA, errB error
+	conc := len(toks) > 5 && toks[5] == "conc"
+	if conc {
+		// two stores of one instance see the peer join in the same poll: both call Connect
+		bus.mu.Lock()
+		bus.rendezvous = true
+		bus.mu.Unlock()
+		wg.Add(1)
+		go func() { _ = ca.Connect(ctx, tpeer(b)); wg.Done() }()
+	}
 	go func() { errA = ca.Connect(ctx, tpeer(b)); wg.Done() }()
 	go func() { errB = cb.Connect(ctx, tpeer(a)); wg.Done() }()
 	wg.Wait()
